@@ -135,6 +135,7 @@ Fixpoint stream_loop (fuel n : nat) (s : st) (t : nat) (acc : list N) : st * lis
       | TRun x p k =>
           match p with
           | PStreamLen 0 _ | PStreamLen _ true | PStreamChunked _ true | PStreamIdent true => (s, 1%N :: acc)
+          | PStreamBroken => (s, 2%N :: acc)
           | _ =>
               match c_inb k with
               | (tg, sy) :: _ =>
@@ -145,7 +146,7 @@ Fixpoint stream_loop (fuel n : nat) (s : st) (t : nat) (acc : list N) : st * lis
                       | PStreamChunked 0 _, _ => stream_loop f n s1 t acc        (* the chunk-size line: no unit yet *)
                       | _, _ => stream_loop f m s1 t (acc ++ enc_sym (tg, sy))
                       end
-                  | None => (s, 2%N :: acc)
+                  | None => (try_step s (LStreamErr t), 2%N :: acc)
                   end
               | [] =>
                   if c_srvclosed k
@@ -153,7 +154,7 @@ Fixpoint stream_loop (fuel n : nat) (s : st) (t : nat) (acc : list N) : st * lis
                        | Some _ => (try_step s (LStreamEof t), 1%N :: acc)
                        | None => (s, 2%N :: acc)
                        end
-                  else (s, 2%N :: acc)
+                  else (try_step s (LStreamErr t), 2%N :: acc)
               end
           end
       | _ => (s, [OUTOFMODEL])
